@@ -27,7 +27,8 @@ ASSUMPTIONS = [
 def strat_case(draw, tier):
     d = draw(st.sampled_from([1, 2, 2, 3]))
     margins = [draw(chain_model_spec(exp=True, cgmy_branches=["y<0", "y=0", "0<y<1"] if d > 1 else None)) for _ in range(d)]
-    r = draw(_f(0.005, 0.08))
+    # (a zero rate is admissible: no discounting)
+    r = 0.0 if draw(st.integers(0, 7)) == 0 else draw(_f(0.005, 0.08))
     for m in margins:
         m["exp"]["r"] = r
     case = {"d": d, "margins": margins, "h_rel": draw(_f(0.5, 1.5)), "a_frac": [draw(_f(0.05, 0.95)) for _ in range(d)],
@@ -99,6 +100,11 @@ def body(case):
     if th2 < th * (1 - 1e-9) - 1e-12:
         out.append(Violation(f"{tag}/intensity-not-increasing-in-a-threshold",
                              f"theta({levels})={th!r} > theta({lv2})={th2!r}; {detail}"))
+    # thresholds written as integers: a number is a number
+    ilv = [-(1 + (k + case["which"]) % 2) for k in range(d)]
+    th_int, th_flt = theta(list(ilv)), theta([float(v) for v in ilv])
+    if not (th_int == th_flt or abs(th_int - th_flt) <= 1e-12 * abs(th_flt)):
+        out.append(Violation(f"{tag}/integer-typed-thresholds-change-the-intensity", f"{ilv}: {th_int!r} vs {th_flt!r}; {detail}"))
     # (3) stated functions of the intensity
     R, T, t = case["recovery"], case["maturity"], case["t"]
     if d == 1:
@@ -164,6 +170,17 @@ def body(case):
                 continue
             if any(grid.axes[i][st_[i]] < levels[i] for i in range(d)):
                 rate += float(inv.probability_to_jump_to_state(tuple(x - o for x, o in zip(st_, oc)))) * lam
+    # building a chain on the model leaves the caller's model as it was: the closed forms asked again (same pricer object and
+    # a new one on the same model) give what they gave before the chain existed
+    th_again = theta(levels)
+    if d == 1:
+        th_new = float(CFLevyModel(model=model)._theta(levels[0]))
+    else:
+        th_new = float(type(cf)(model)._theta(list(levels)))
+    if th_again != th or abs(th_new - th) > 1e-12 * abs(th):
+        out.append(Violation(f"{tag}/closed-form-changed-by-building-a-chain-on-the-model",
+                             f"intensity before {th!r}; after the chain was built: same pricer {th_again!r}, new pricer "
+                             f"{th_new!r}; {detail}"))
     if d == 1:
         # the closed form is a function of the model it holds *as it is now*: after the model is truncated in place to the
         # grid's bounds (what a chain does to its own copy) the same pricer object must agree with a fresh pricer
@@ -195,6 +212,8 @@ def classify(case):
              sorted({branch_of(m) for m in case["margins"]})
     if case["d"] > 1:
         labels.append(case["copula"]["type"])
+    if case["margins"][0]["exp"]["r"] == 0:
+        labels.append("zero-rate")
     near = any(f < 0.15 for f in case["a_frac"])
     if near:
         labels.append("threshold-near-truncation")
